@@ -11,6 +11,7 @@ import time
 sys.path.insert(0, os.path.dirname(os.path.abspath(__file__)))
 import vlib
 import corr_recipe as cr
+from ai_edge_quantizer import algorithm_manager
 from ai_edge_quantizer import recipe as recipe_helpers
 from ai_edge_quantizer import recipe_manager
 from ai_edge_quantizer import qtyping
@@ -63,7 +64,7 @@ def roundtrip(rm, desc):
   for op, sc in PAIRS:
     a1, c1 = rm.get_quantization_configs(op, sc)
     a2, c2 = new.get_quantization_configs(op, sc)
-    if (str(a1), c1) != (str(a2), c2):
+    if (getattr(a1, 'value', a1), c1) != (getattr(a2, 'value', a2), c2):
       return {'key': 'C12:resolution-differs', 'what':
               f'({op},{sc}) resolves differently after reload', 'input': desc}
   return None
@@ -141,10 +142,19 @@ Eval vm_compute in (map (fun es => flat (Jres J_state (load_raw check ocfg_post_
       continue
     rm = recipe_manager.RecipeManager()
     cfgs = cr.configs()
+    # algorithm keys are given as AlgorithmName members in half of the
+    # histories (the API accepts both; JSON turns them into plain strings)
+    as_enum = rng.random() < 0.5
     for op in ops:
       if op[0] == 'add':
+        alg = op[4]
+        if as_enum:
+          try:
+            alg = algorithm_manager.AlgorithmName(alg)
+          except ValueError:
+            pass
         try:
-          rm.add_quantization_config(op[1], op[2], cfgs[op[3]], op[4])
+          rm.add_quantization_config(op[1], op[2], cfgs[op[3]], alg)
         except ValueError:
           pass
     evals += 1
